@@ -76,6 +76,9 @@ var penvs = []penv{
 	{name: "context.a=?", p: P, a: A, r: R, c: rec("a", variable("x"), "r", rec("b", types.Long(1)), "s", set(types.Long(1), types.Long(2))), vars: []string{"x"}},
 	{name: "context.r.b=?", p: P, a: A, r: R, c: rec("a", types.Long(1), "r", rec("b", variable("x")), "s", set(types.Long(1), types.Long(2))), vars: []string{"x"}},
 	{name: "context.s=[?,2]", p: P, a: A, r: R, c: rec("a", types.Long(1), "r", rec("b", types.Long(1)), "s", set(variable("x"), types.Long(2))), vars: []string{"x"}},
+	{name: "context.s=[{k:?},2]", p: P, a: A, r: R, c: rec("a", types.Long(1), "r", rec("b", types.Long(1)), "s", set(rec("k", variable("x")), types.Long(2))), vars: []string{"x"}},
+	{name: "context.s=[[?],2]", p: P, a: A, r: R, c: rec("a", types.Long(1), "r", rec("b", types.Long(1)), "s", set(set(variable("x")), types.Long(2))), vars: []string{"x"}},
+	{name: "context.r.b=[{k:[?]}]", p: P, a: A, r: R, c: rec("a", types.Long(1), "r", rec("b", set(rec("k", set(variable("x"))))), "s", set(types.Long(1), types.Long(2))), vars: []string{"x"}},
 	{name: "principal=?,context.a=?", p: variable("p"), a: A, r: R, c: rec("a", variable("x"), "r", rec("b", types.Long(1)), "s", set(types.Long(1), types.Long(2))), vars: []string{"p", "x"}},
 	{name: "principal=?,context.s=[?,2]", p: variable("p"), a: A, r: R, c: rec("a", types.Long(1), "r", rec("b", types.Long(1)), "s", set(variable("x"), types.Long(2))), vars: []string{"p", "x"}},
 	{name: "principal=?,context.s=[principal]", p: variable("p"), a: A, r: R, c: rec("a", types.Long(1), "r", rec("b", types.Long(1)), "s", set(variable("p"), ent("G", "g2"))), vars: []string{"p"}},
@@ -193,6 +196,7 @@ func leaves() []*Expr {
 	return []*Expr{
 		Access(Var("context"), "a"), Access(Access(Var("context"), "r"), "b"), Var("context"), Access(Var("context"), "s"), Var("principal"), Access(Var("resource"), "a"), Access(Var("principal"), "a"),
 		L(Long(1)), L(Str("s")), L(Bool(true)), L(Entity("U", "alice")), L(Set(Long(1), Long(2))), L(Rec(KV{"a", Long(1)}, KV{"r", Rec(KV{"b", Long(1)})}, KV{"s", Set(Long(1), Long(2))})), L(Entity("G", "g2")),
+		L(Rec(KV{"k", Long(1)})), L(Set(Long(1))), L(Set(Rec(KV{"k", Set(Long(1))}))),
 	}
 }
 
@@ -552,7 +556,7 @@ func Check() *core.Check {
 	return &core.Check{
 		ID:    "C06",
 		Title: "Partial evaluation is sound for every completion of the unknowns",
-		Rule: "bounded-exhaustive: policies (scope-form pairs; every operator form over 14 leaves in 4 policy shapes; depth-2 short-circuit/structural parents) x 19 partial environments (unknown principal/action/resource/context, unknowns nested in context records and sets, the same unknown twice, ignored parts) x every completion from universes that hit both branches of the comparisons; kept => residual satisfied iff original; dropped => original never satisfied; ignored part (permit) => original satisfied implies kept and residual satisfied; " +
+		Rule: "bounded-exhaustive: policies (scope-form pairs; every operator form over 17 leaves in 4 policy shapes; lists of 1..3 when/unless clauses; depth-2 short-circuit/structural parents) x 22 partial environments (unknown principal/action/resource/context, unknowns nested up to three levels deep in context records and sets (set in record, record in set, set in set, set in record in set), the same unknown twice, ignored parts) x every completion from universes that hit both branches of the comparisons; kept => residual satisfied iff original; dropped => original never satisfied; ignored part (permit) => original satisfied implies kept and residual satisfied; " +
 			"a case is non-trivial if under some environment with unknowns the original is satisfied for some completions and not for others",
 		Assumptions: []string{"satisfaction is judged by x/exp/eval.Eval on PolicyToNode (its conformance is C01)", "forbid policies under ignored parts are not constrained by the property and are skipped"},
 		Families: func(tier string) []*core.Family {
